@@ -137,6 +137,19 @@ def generate(rng, tier):
         cases.append(Case("path.new", [enc("c" + "/" * N + "p")], meta={"nt": True, "src": "count"}))
         cases.append(Case("dep.new", [enc("p>=1" + ":" * N + "../../c/p")], meta={"nt": True, "src": "count"}))
     cases.append(Case("pat.match", [enc("{a,b}" * 12 + "-[0-9]*"), enc("ababababababababababab-1")], meta={"nt": True, "src": "big"}))
+    # nesting depth (simultaneously open groups) around 255 / 256 / 65535 / 65536, balanced and not, reached through
+    # every entry point that compiles a pattern
+    for d in (254, 255, 256, 257, 1000, 65535, 65536, 65537):
+        deep = "{" * d + "foo,bar" + "}" * d + "-[0-9]*"
+        if d <= 1000:
+            cases.append(Case("pat.match", [enc(deep), enc("foo-1.0")], meta={"nt": True, "src": "deep"}))     # (quadratic in the depth)
+        cases.append(Case("pat.new", [enc(deep)], meta={"nt": True, "src": "deep"}))
+        cases.append(Case("pat.new", [enc("{" * d + "a" + "}" * (d - 1))], meta={"nt": True, "src": "deep"}))
+        cases.append(Case("pat.new", [enc("{" * d + "a")], meta={"nt": True, "src": "deep"}))
+        if d <= 1000:
+            cases.append(Case("pat.best", [enc(deep), enc("foo-1.0"), enc("bar-2.0")], meta={"nt": True, "src": "deep"}))
+            cases.append(Case("dep.new", [enc(deep + ":../../cat/foo")], meta={"nt": True, "src": "deep"}))
+            cases.append(Case("scan.readb", [enc(("PKGNAME=a-1\nALL_DEPENDS=" + deep + ":../../cat/foo\n").encode()), "N"], meta={"nt": True, "src": "deep"}))
     cases.append(Case("pat.match", [enc("{}" * 3000 + "x-1"), enc("x-1")], meta={"nt": True, "src": "deep"}))
     # formerly the known finding KF-C17-altdepth (stack overflow, repaired): very many groups, implementation only, expected verdicts
     # (run on the implementation only: the extracted model needs ~50 s for it; C04_fuel_ok proves its answer exists)
